@@ -10,7 +10,7 @@ from .core import Ctx, Infra, casehash, log
 
 # MC_C15!Variants: the code as built and the two settings edits that are harmless alone keep NoRace; every other design
 # (one mechanism dropped) has a counterexample that is pinned here
-SAFE = ["as_built", "settings_shared", "settings_toggled"]
+SAFE = ["as_built", "settings_shared", "settings_toggled", "router_hint"]
 UNSAFE = ["default_aliased", "route_shared", "settings_shared_toggled", "registry_lazy", "typeinfos_unlocked",
           "pattern_cache_plain", "uricache_unlocked", "unique_lazy", "writers_included"]
 
@@ -28,6 +28,9 @@ def _design_checks(ctx):
 
     with cf.ThreadPoolExecutor(max_workers=6) as ex:
         list(ex.map(one, SAFE + UNSAFE))
+    # routers over overlapping routes: the answer is a function of document and request (RouteOrder); remembering the last match is not
+    ctx.tlc("RouteOrder", "MC_C15R.cfg", workers=1, xmx="1g", label="D RouteOrder stateless: every answer is the prescribed route")
+    ctx.tlc("RouteOrder", "MC_C15R_hinted.cfg", workers=1, xmx="1g", expect_violation=True, label="D RouteOrder hinted: pinned counterexample")
     if ctx.tier == "thorough":
         # 7.7M states, 2-3 min: spec-only, so it runs next to generation and the concurrent runs and is joined before the verdict
         ex3 = cf.ThreadPoolExecutor(max_workers=1)
@@ -70,7 +73,7 @@ def c15(ctx: Ctx):
             ctx.samples.append(dict(c=o["c"], outcome=o["outcome"], runs=o.get("runs", [])[:2]))
     ctx.rule = ("flat operations: every multiset of <=2 (quick) / <=3 (thorough); product operations <<entry, feature>>: each alone, "
                 "every pair of entries and every pair of features (quick; the feature / entry they meet in chosen by the seed) / every pair "
-                "(thorough); media types: every <<side, declared.sent>> alone and next to a JSON body; flat x product / media by the seed; "
+                "(thorough); media types: every <<side, declared.sent>> alone and next to a JSON body; routers over overlapping routes: every <<entry, shape>> alone and every pair on one router; flat x product / media by the seed; "
                 "process configurations (uniqueness checker replaced / nil, details off).  Each case is one concurrent run under -race; "
                 "non-trivial = at least two operations or a non-default configuration")
     ctx.validate("Trace_C15", "Trace_C15.cfg", logp, chunk_lines=(60 if ctx.tier == "quick" else 400))
